@@ -5,6 +5,7 @@ node restarts from SimFS (path / handle / loads) and keeps adding to the restart
 reloaded payload must be a live, extendable structure that behaves as before the restart.
 """
 from .. import gen_mf
+from ..kits import KITS
 from ..pools import pick
 
 ID = "C03"
@@ -22,4 +23,10 @@ def generate(rng, tier, idx):
     ops.append({"op": "dump", "path": path})
     ops.append({"op": "restart", "path": path, "via": pick(rng, ["path", "handle", "loads"]), "offset": rng.randint(0, 999)})
     ops.append({"op": "restart", "path": path, "via": "path"})
+    _machine = machine
+    if rng.random() < 0.25:
+        # a bystander object with other content lives next to the main one
+        b_build, b_final = KITS[_machine].bystander(rng, tier)
+        cut = rng.randint(1, len(ops))
+        ops = ops[:cut] + b_build + ops[cut:] + b_final + [o for o in ops[-2:] if o["op"] in ("dump", "restart")]
     return {"machine": machine, "cfg": {}, "ops": ops}
